@@ -40,6 +40,10 @@ pub trait Observer<Item, Err>: Sized {
   spec fn rx(&self) -> Seq<Ev<Item, Err>>;
   spec fn delivered(t: Seq<Ev<Item, Err>>) -> bool;
   spec fn fin(&self) -> bool;
+  // ended(o, ev): what the terminal `ev` called on exactly the observer value `o` achieves.  For an
+  // abstract observer it is an uninterpreted witness of the call; an operator that is held inside
+  // a shared slot defines it as its own terminal contract, so that the slot's contract composes.
+  spec fn ended(o: Self, ev: Ev<Item, Err>) -> bool;
 
   fn next(&mut self, value: Item)
     requires old(self).wf(),
@@ -48,10 +52,12 @@ pub trait Observer<Item, Err>: Sized {
         && final(self).rx() == old(self).rx().push(Ev::Next(value));
   fn error(self, err: Err)
     requires self.wf(),
-    ensures self.records() ==> Self::delivered(self.rx().push(Ev::Error(err)));
+    ensures self.records() ==> Self::delivered(self.rx().push(Ev::Error(err))),
+      Self::ended(self, Ev::Error(err));
   fn complete(self)
     requires self.wf(),
-    ensures self.records() ==> Self::delivered(self.rx().push(Ev::Complete));
+    ensures self.records() ==> Self::delivered(self.rx().push(Ev::Complete)),
+      Self::ended(self, Ev::Complete);
   fn is_finished(&self) -> (r: bool)
     requires self.wf(),
     ensures r == self.fin();
